@@ -1,7 +1,7 @@
 import StrandModel.Lemmas.KeymakerLemmas
 import StrandModel.Lemmas.SigmaIff
 import StrandModel.Model.Threshold
-import StrandModel.Props.C05
+import StrandModel.Props.C05Core
 import StrandModel.Props.C15
 /-
 C07 — verifiable decryption.  The factor a key holder releases with its Chaum-Pedersen proof
